@@ -466,6 +466,78 @@ def emit_names_in_identity(ctx, i):
     ctx.case({"emit-identity": [str(e) for e in emits], "b": type(backend).__name__}, True)
 
 
+DEFINITION_PAIRS = [
+    # (label, source of variant A, source of variant B, inputs) - same function name, same parameters, same node name and
+    # output name; the two definitions give different results on the inputs
+    ("referenced-global-name", "import math\ndef f(x):\n    return math.floor(x)\n", "import math\ndef f(x):\n    return math.ceil(x)\n", {"x": 1.5}),
+    ("attribute-name", "def f(x):\n    return x.real\n", "def f(x):\n    return x.imag\n", {"x": 3 + 4j}),
+    ("method-name", "def f(x):\n    return x.upper()\n", "def f(x):\n    return x.lower()\n", {"x": "Ab"}),
+    ("called-helper-name", "def ha(v):\n    return ('a', v)\ndef hb(v):\n    return ('b', v)\ndef f(x):\n    return ha(x)\n", "def ha(v):\n    return ('a', v)\ndef hb(v):\n    return ('b', v)\ndef f(x):\n    return hb(x)\n", {"x": 1}),
+    ("parameter-roles", "def f(a, b):\n    return a - b\n", "def f(b, a):\n    return b - a\n", {"a": 5, "b": 3}),
+    ("local-variable-only", "def f(x):\n    t = x + 1\n    return t * 2\n", "def f(x):\n    t = x + 2\n    return t * 2\n", {"x": 1}),
+    ("constant", "def f(x):\n    return x + 1\n", "def f(x):\n    return x + 2\n", {"x": 1}),
+    ("string-constant", "def f(x):\n    return (x, 'left')\n", "def f(x):\n    return (x, 'right')\n", {"x": 1}),
+    ("positional-default", "def f(x, k=1):\n    return x + k\n", "def f(x, k=2):\n    return x + k\n", {"x": 1}),
+    ("keyword-only-default", "def f(x, *, k=1):\n    return x + k\n", "def f(x, *, k=2):\n    return x + k\n", {"x": 1}),
+    ("inner-lambda-body", "def f(x):\n    return sorted(x, key=lambda v: v)\n", "def f(x):\n    return sorted(x, key=lambda v: -v)\n", {"x": [2, 3, 1]}),
+    ("inner-function-body", "def f(x):\n    def g(v):\n        return v + 1\n    return g(x)\n", "def f(x):\n    def g(v):\n        return v + 2\n    return g(x)\n", {"x": 1}),
+    ("inner-comprehension", "def f(x):\n    return [v for v in x if v > 1]\n", "def f(x):\n    return [v for v in x if v > 2]\n", {"x": [1, 2, 3]}),
+    ("operator", "def f(a, b):\n    return a < b\n", "def f(a, b):\n    return a > b\n", {"a": 1, "b": 2}),
+    ("binary-operator", "def f(a, b):\n    return a + b\n", "def f(a, b):\n    return a * b\n", {"a": 3, "b": 4}),
+    ("inner-lambda-global", "def f(x):\n    return list(map(lambda v: abs(v), x))\n", "def f(x):\n    return list(map(lambda v: str(v), x))\n", {"x": [-1]}),
+    ("closure-value", "def mk(k):\n    def f(x):\n        return x * k\n    return f\nf = mk(2)\n", "def mk(k):\n    def f(x):\n        return x * k\n    return f\nf = mk(3)\n", {"x": 5}),
+]
+_DEF_COUNTER = [0]
+
+
+def _define(src, with_source):
+    import linecache
+
+    _DEF_COUNTER[0] += 1
+    filename = f"<hgmon-def-{_DEF_COUNTER[0]}>"
+    if with_source:
+        linecache.cache[filename] = (len(src), None, src.splitlines(True), filename)
+    ns = {}
+    exec(compile(src, filename, "exec"), ns)  # noqa: S102 - our own source
+    return ns["f"]
+
+
+def definition_pairs(ctx, i):
+    """Two DIFFERENT definitions behind cached nodes that agree in everything else (function name, parameters, node
+    name, output name, arguments) on one shared backend: the second node must not be served the first one's entry. Every
+    pair is played with retrievable source (source-hash branch of the definition hash) and without (functions made by
+    exec / in a notebook cell: bytecode branch), in both orders, on an in-memory and an on-disk backend."""
+    from hypergraph import FunctionNode, Graph, SyncRunner
+
+    rng = ctx.rng
+    for label, sa, sb, inputs in DEFINITION_PAIRS:
+        for with_source in (True, False):
+            if with_source and label == "closure-value":
+                continue  # documented: the source branch hashes the source text only (section 9, observations)
+            fa, fb = _define(sa, with_source), _define(sb, with_source)
+            order = [(fa, "A"), (fb, "B")] if rng.random() < 0.5 else [(fb, "B"), (fa, "A")]
+            backend, tmp = _with_backend(rng)
+            cached, plain = SyncRunner(cache=backend), SyncRunner()
+            case = {"program": f"definition pair {label}", "with_source": with_source, "order": [t for _, t in order], "backend": type(backend).__name__, "A": sa, "B": sb, "inputs": repr(inputs)}
+            try:
+                for step, (fn, tag) in enumerate(order + order):
+                    g = Graph([FunctionNode(fn, name="n", output_name="o", cache=True)], name="gd")
+                    rc = cached.run(g, dict(inputs))
+                    ru = plain.run(g, dict(inputs))
+                    ctx.obs["cached_runs_compared"] += 1
+                    ctx.obs["definition_pair_runs"] += 1
+                    if (rc.status.value, rc.values) != (ru.status.value, ru.values):
+                        ctx.violation(
+                            "C09:served-to-different-definition:" + ("source" if with_source else "bytecode") + ":" + label,
+                            f"definition pair '{label}' ({'with' if with_source else 'without'} retrievable source), run {step} (variant {tag}): cached {rc.values} vs uncached {ru.values} - the entry of the other definition was served",
+                            {**case, "step": step},
+                        )
+                        break
+            finally:
+                _drop_backend(backend, tmp)
+    ctx.case({"definition-pairs": len(DEFINITION_PAIRS)}, True)
+
+
 def lru_recency(ctx, i):
     """Size-limited in-memory backend, directed history: with room for m entries, an entry that was just READ is the
     most recently used one, so the next insertion evicts some other entry and the read one is still served (documented
@@ -738,6 +810,8 @@ def run(ctx):
             container_arguments(ctx, i)
         elif i % 20 == 2:
             lru_recency(ctx, i)
+        elif i % 50 == 7:
+            definition_pairs(ctx, i)
         elif i % 20 == 12:
             permuted_wiring_identity(ctx, i)
         else:
